@@ -35,12 +35,12 @@ package pattern
 //@ spec func asciipunct(r rune) bool = (33 <= r && r <= 47) || (58 <= r && r <= 64) || (91 <= r && r <= 96) || (123 <= r && r <= 126)
 //@ func compile
 //@   site ESC = call strings.(*Builder).WriteByte#12
-//@   assert[C12 C15] at call strings.(*Builder).WriteRune#5: an-escaped-metacharacter-gets-a-backslash: r != 65533 && remeta(r) ==> site(ESC)
-//@   assert[C12 C15] at call strings.(*Builder).WriteRune#5: a-backslash-only-before-punctuation: site(ESC) ==> asciipunct(r)
+//@   assert[C12 C15] at call strings.(*Builder).WriteRune#4: an-escaped-metacharacter-gets-a-backslash: r != 65533 && remeta(r) ==> site(ESC)
+//@   assert[C12 C15] at call strings.(*Builder).WriteRune#4: a-backslash-only-before-punctuation: site(ESC) ==> asciipunct(r)
 //@   site BESC = call strings.(*Builder).WriteByte#10
-//@   assert[C12 C15] at call strings.(*Builder).WriteRune#3: an-escaped-member-gets-a-backslash: r == '\\' || r == ']' || r == '^' || r == '-' || r == '[' ==> site(BESC)
-//@   assert[C12 C15] at call strings.(*Builder).WriteRune#3: a-backslash-only-before-punctuation: site(BESC) ==> asciipunct(r)
-//@   assert[C12 C15] at call strings.(*Builder).WriteRune#7: no-bare-metacharacter: !remeta(r) || r == ']'
+//@   assert[C12 C15] at call strings.(*Builder).WriteRune#2: an-escaped-member-gets-a-backslash: r == '\\' || r == ']' || r == '^' || r == '-' || r == '[' ==> site(BESC)
+//@   assert[C12 C15] at call strings.(*Builder).WriteRune#2: a-backslash-only-before-punctuation: site(BESC) ==> asciipunct(r)
+//@   assert[C12 C15] at call strings.(*Builder).WriteRune#6: no-bare-metacharacter: !remeta(r) || r == ']'
 //@   loop `for pat != ""` decreases[C12] len(pat)
 //@   loop "for" invariant 0 <= w && w <= len(pat) && (w == 0 ==> r == 65533)
 //@   loop "for" decreases[C12] len(pat)
